@@ -20,11 +20,21 @@ VALIDATION (not proof; the main cross-engine claim C12_full_statement is NOT pro
              for DuckDB, executed there — it must return the rows / column order / column names (up to letter case and the
              engine's sanitising) of the DuckDB session's collect().  The interpretation of a dialect is sqlglot's, not the
              real engine's.
+functions  : c12_fns.py — "forall engine-supported functions from a per-engine table": every function whose body (in the tree under
+             test) takes a per-engine decision is called with every argument form its own signature admits (name / Column /
+             Python literal / lit() / omitted); engine-native functions DuckDB lacks are read by a table of ASSUMED primitives.
+             proof side: Gen/EngineFns.lean (tools/gen_c12_fns.py: symbolic execution of the dispatching bodies) + Impl/C12Fns.lean:
+             time-format roles and sqlglot's format rewriting (C12_default_time_format, C12_try_to_timestamp_default,
+             C12_format_execution_time for formats of any length), overlay (C12_overlay: every string / position / length / len form,
+             NULLs), sequence without a step (C12_sequence_noStep: all integers), regexp_replace (C12_regexp_replace_all).
+             tie: the running time helpers on every session (and on sessions with three different dialects) vs the model; the rows
+             every engine's overlay / sequence / regexp_replace statement returns vs the model's value for that engine.
 """
 from __future__ import annotations
 
 import vlib  # noqa: E402  (first: puts the tree under test first on sys.path)
 
+import datetime
 import decimal
 import importlib
 import json
@@ -36,18 +46,23 @@ import typing as t
 import warnings
 
 import c01
+import c12_fns as FN
 import exprs as X
 from vlib import Ctx
 
 ID = "C12"
 LEVEL = "proof"
 MODULES = ["SqlframeModel.Codec.C12", "SqlframeModel.Props.C12"]
-GEN = ["Engines"]
+GEN = ["Engines", "EngineFns"]
 SOURCES = [
     "SqlframeModel/Props/C12.lean",
     "SqlframeModel/Lemmas/C12.lean",
     "SqlframeModel/Impl/C12Names.lean",
     "SqlframeModel/Impl/C12Round.lean",
+    "SqlframeModel/Impl/C12Fns.lean",
+    "SqlframeModel/Impl/C12TimeTables.lean",
+    "SqlframeModel/Lemmas/C12Fns.lean",
+    "SqlframeModel/Lemmas/C12Format.lean",
 ]
 
 ENGINES = ["bigquery", "snowflake", "postgres", "databricks", "spark", "redshift", "duckdb"]
@@ -160,6 +175,7 @@ class Interp:
         import duckdb
 
         self.duck = duckdb.connect(":memory:")
+        self.duck.execute("SET TimeZone='UTC'")
 
     def run(self, text: str, dialect: str) -> dict:
         import sqlglot
@@ -188,6 +204,17 @@ class Interp:
             out["fail"] = f"re-rendering the parse is not a fixed point in {dialect}: {norm[:200]!r} vs {again[:200]!r}"
             return out
         out["is_own_normal_form"] = norm == text
+        # ASSUMED engine primitives: functions the engine runs natively and DuckDB does not have are read by their documented
+        # definition (c12_fns.apply_prims; Impl/C12Fns.lean)
+        prims: t.List[str] = []
+        try:
+            tree = FN.apply_prims(tree, dialect, prims)
+        except Exception as e:  # noqa
+            out["fail"] = f"cannot apply the assumed engine primitives to the {dialect} text: {type(e).__name__}: {str(e)[:160]}"
+            out["oracle"] = True
+            return out
+        if prims:
+            out["prims"] = prims
         # every column reference must resolve under the dialect's OWN identifier rules.  DuckDB (the executor below) folds
         # quoted names too, so a reference spelled differently from its quoted definition would go unnoticed there; for the
         # dialects that keep quoted identifiers as written (sqlglot strategy LOWERCASE / UPPERCASE: Postgres, Snowflake)
@@ -352,6 +379,7 @@ def make_session(engine: str, cls_name: t.Optional[str] = None) -> t.Tuple[t.Any
             import duckdb
 
             conn = duckdb.connect(":memory:")
+            conn.execute("SET TimeZone='UTC'")
             return cls(conn=conn), conn
         if engine == "standalone":
             return cls(), None
@@ -449,6 +477,8 @@ def _df2(session: t.Any, rows: t.List[t.List[t.Any]], second: str) -> t.Any:
 
 def build(p: dict, session: t.Any, F: t.Any, W: t.Any) -> t.Any:
     fam = p["fam"]
+    if fam == "fncall":
+        return FN.build(p, session, F)
     if fam == "chain":
         df = X.make_df(session, p["schema"], p["rows"])
         for s in p["steps"]:
@@ -547,6 +577,8 @@ def build(p: dict, session: t.Any, F: t.Any, W: t.Any) -> t.Any:
 
 def show_prog(p: dict) -> str:
     fam = p["fam"]
+    if fam == "fncall":
+        return FN.show(p)
     if fam == "chain":
         return c01.show_case(p)
     if fam == "join":
@@ -593,6 +625,26 @@ def gen_programs(ctx: Ctx) -> t.List[dict]:
             got += 1
     for _ in range(n_extra):
         progs.append(dict(gen_extra(ctx.rng), origin="random-extra"))
+    # the function stream (c12_fns): engine-specific function renderings x argument forms
+    try:
+        with warnings.catch_warnings():
+            warnings.simplefilter("ignore")
+            BF = importlib.import_module("sqlframe.base.functions")
+        try:
+            import gen_c12_fns
+
+            branchy: t.Optional[t.Set[str]] = {f for f, _ in gen_c12_fns.fn_flags(vlib.REPO)}
+        except Exception as e:  # noqa: the source does not parse: `prove` has recorded it
+            branchy = None
+            vlib.log(f"C12: engine-specific functions not read from the source ({e}); using the marked recipes only")
+        fcases, problems, fstats = FN.gen_cases(ctx.rng, BF, ctx.thorough, branchy)
+    except Exception as e:  # noqa
+        fcases, problems, fstats = [], [f"function stream: cannot enumerate the cases: {type(e).__name__}: {str(e)[:200]}"], {}
+    for pb in problems:
+        ctx.broken.append(pb)
+    ctx.cov["function_stream"] = fstats
+    for c in fcases:
+        progs.append(dict(c, origin="fncall"))
     return progs
 
 
@@ -609,9 +661,24 @@ def canon_value(v: t.Any) -> t.Any:
     if isinstance(v, decimal.Decimal):
         v = float(v)
     if isinstance(v, float):
+        if v != v:
+            return "NaN"
+        if v in (float("inf"), float("-inf")):
+            return repr(v)
         if v == int(v) and abs(v) < 1e15:
             return int(v)
-        return round(v, 9)
+        return float(f"{v:.9g}")  # stated tolerance: 9 significant digits
+    if isinstance(v, datetime.datetime):
+        # an instant: zone-aware values are brought to UTC (every session of the stream runs in UTC), then compared as wall-clock text
+        if v.tzinfo is not None:
+            v = v.astimezone(datetime.timezone.utc).replace(tzinfo=None)
+        return "T:" + v.strftime("%Y-%m-%d %H:%M:%S.%f")
+    if isinstance(v, datetime.date):
+        return "D:" + v.isoformat()
+    if isinstance(v, (bytes, bytearray)):
+        return "B:" + bytes(v).hex()
+    if isinstance(v, (list, tuple)):
+        return [canon_value(x) for x in v]
     return repr(v)
 
 
@@ -645,14 +712,16 @@ def name_equiv(san: bool, engine_name: str, duck_name: str) -> bool:
     return engine_name.lower() == (py_sanitize(duck_name) if san else duck_name).lower()
 
 
-def compare(ref: dict, cols: t.List[str], rows: t.List[t.List[t.Any]], san: bool, is_ordered: bool, tag: str) -> t.List[str]:
+def compare(ref: dict, cols: t.List[str], rows: t.List[t.List[t.Any]], san: bool, is_ordered: bool, tag: str, full: bool = False) -> t.List[str]:
     fails = []
     if len(cols) != len(ref["cols"]) or not all(name_equiv(san, c, d) for c, d in zip(cols, ref["cols"])):
         fails.append(f"[{tag}] column names {cols} differ from the DuckDB session's {ref['cols']} (beyond letter case{' and sanitising' if san else ''})")
     if san and any(a in c for c in cols for a, _ in _REPS):
         fails.append(f"[{tag}] column names {cols} carry characters the engine cannot carry")
     if (rows != ref["rows"]) if is_ordered else (vlib.bag(rows) != vlib.bag(ref["rows"])):
-        fails.append(f"[{tag}] rows differ from the DuckDB session's: {rows[:6]} vs {ref['rows'][:6]}")
+        # (function cases carry both results in full, machine-readable, for the row-wise rules of the open findings)
+        blob = FN.BLOB + json.dumps({"rows": rows, "ref": ref["rows"]}, default=str) if full else ""
+        fails.append(f"[{tag}] rows differ from the DuckDB session's: {rows[:6]} vs {ref['rows'][:6]}{blob}")
     return fails
 
 
@@ -679,7 +748,10 @@ def reference(progs: t.List[dict]) -> t.List[dict]:
         fails: t.List[str] = []
         texts: t.Dict[str, str] = {}
         nf = 0
-        for e in ENGINES:
+        # function calls: a session's per-engine function decisions are taken when the Column is built, so df.sql(dialect=X) for
+        # another engine X keeps them (open finding H_sqlDialectKeepsSessionFunctions); the function stream therefore reads a
+        # session's text only in the session's own dialect
+        for e in ENGINES if p["fam"] != "fncall" else ["duckdb"]:
             tag = f"duckdb-session.sql(dialect={e})"
             try:
                 text = df.sql(dialect=e, optimize=False)
@@ -714,7 +786,12 @@ def run_engine(args: t.Tuple[str, t.List[dict], t.List[dict]]) -> t.List[dict]:
         ref = rf["ref"]
         fails: t.List[str] = []
         sent: t.List[str] = []
+        if p["fam"] == "fncall" and (not hasattr(F, p["fn"]) or (p["fn"], engine) in FN.SKIP):
+            # declared unsupported on this engine (`unsupported_engines`), or a pair the oracle cannot read (FN.SKIP)
+            out.append({"skip": True})
+            continue
         tag = f"{engine}-session.collect()"
+        crows: t.Optional[list] = None
         n0 = len(conn.log)
         r0 = len(conn.results)
         try:
@@ -726,7 +803,8 @@ def run_engine(args: t.Tuple[str, t.List[dict], t.List[dict]]) -> t.List[dict]:
             rows = df.collect()
             sent = conn.log[n0:]
             cols = list(rows[0].__fields__) if rows else [d[0] for d in (conn.results[-1].get("description") or [])]
-            fails += compare(ref, cols, canon_rows(rows), san, ordered(p), tag)
+            crows = canon_rows(rows)
+            fails += compare(ref, cols, crows, san, ordered(p), tag, full=p["fam"] == "fncall")
         except StatementRejected as e:
             sent = conn.log[n0:]
             fails.append(f"[{tag}] {e}")
@@ -738,6 +816,9 @@ def run_engine(args: t.Tuple[str, t.List[dict], t.List[dict]]) -> t.List[dict]:
                 fails.append(f"[{tag}] {x['unsupported']}")
         # (c)
         tag = f"{engine}-session.sql(dialect=duckdb)"
+        if p["fam"] == "fncall":
+            out.append({"fails": fails, "sent": sent, "own_nf": [x.get("is_own_normal_form") for x in conn.results[-1:]], "rows": crows})
+            continue
         try:
             text = df.sql(dialect="duckdb", optimize=False)
             r = interp.run(text, "duckdb")
@@ -765,6 +846,8 @@ def run_chunk(progs: t.List[dict]) -> t.List[dict]:
                 continue
             o["fails"] += r["fails"]
             o["sent"][e] = r["sent"]
+            if r.get("rows") is not None:
+                o.setdefault("rows", {})[e] = r["rows"]
             o["own_nf"] += sum(1 for x in r.get("own_nf", []) if x)
     reset_singleton()
     return out
@@ -907,7 +990,11 @@ def classify(p: dict, fails: t.List[str], known: t.Dict[str, dict]) -> t.Optiona
     rules = shape_rules()
     hs: t.List[str] = []
     for f in fails:
-        h = next((k for k, pred in rules.items() if k in known and pred(p, f)), None)
+        if p.get("fam") == "fncall":
+            h = FN.classify_failure(p, f)
+            h = h if h in known else None
+        else:
+            h = next((k for k, pred in rules.items() if k in known and pred(p, f)), None)
         if h is None:
             return None
         if h not in hs:
@@ -1094,6 +1181,204 @@ def live_round() -> t.Dict[str, t.Any]:
     return out
 
 
+TIME_TRIPLES = [("spark", "bigquery", "snowflake"), ("snowflake", "spark", "postgres"), ("postgres", "snowflake", "spark"), ("spark", "postgres", "duckdb")]
+
+
+def live_timefmt() -> t.List[dict]:
+    """the running time-format helpers of _BaseSession: on every engine's fresh session, and on sessions whose three dialects are
+    pairwise different (so that a helper reading the wrong ROLE shows even where the default dialects coincide)"""
+    from sqlglot.dialects.dialect import Dialect
+
+    fmts: t.List[t.Optional[str]] = [None] + [f for f, _ in FN.TS_FORMATS] + [f for f, _ in FN.D_FORMATS]
+    out: t.List[dict] = []
+    configs: t.List[t.Tuple[str, t.Optional[t.Tuple[str, str, str]]]] = [(e, None) for e in ENGINES] + [("postgres", tr) for tr in TIME_TRIPLES]
+    for e, triple in configs:
+        try:
+            s, _ = make_session(e)
+            if triple:
+                s.input_dialect, s.output_dialect, s.execution_dialect = (Dialect.get_or_raise(x) for x in triple)
+            ds = [dialect_name(s.input_dialect), dialect_name(s.output_dialect), dialect_name(s.execution_dialect)]
+            for f in fmts:
+                c: dict = {"kind": "timefmt", "engine": e, "input": ds[0], "output": ds[1], "execution": ds[2], "fmt": f}
+                try:
+                    c["live"] = {
+                        "defaultTimeFormat": s.default_time_format,
+                        "formatTime": s.format_time(f).this,
+                        "formatExecutionTime": s.format_execution_time(f).this,
+                    }
+                except Exception as ex:  # noqa
+                    c["live_err"] = f"{type(ex).__name__}: {str(ex)[:120]}"
+                out.append(c)
+        except Exception as ex:  # noqa
+            out.append({"kind": "timefmt", "engine": e, "input": "spark", "output": "spark", "execution": e, "fmt": None, "live_err": f"{type(ex).__name__}: {str(ex)[:120]}"})
+    reset_singleton()
+    return out
+
+
+def live_fmttime() -> t.List[dict]:
+    """sqlglot's own format_time (third party) on the formats the stream uses, in both directions, for every dialect"""
+    from sqlglot import exp
+    from sqlglot.dialects.dialect import Dialect
+
+    out = []
+    for d in ENGINES:
+        D = Dialect.get_or_raise(d)
+        texts = {D.TIME_FORMAT.strip("'")} | {f for f, _ in FN.TS_FORMATS + FN.D_FORMATS} | {"yyyy-MM-dd'T'HH:mm", "HH24:MI", "x-%Y", "%Y%m%d"}
+        for f in sorted(texts):
+            try:
+                out.append({"kind": "fmttime", "dialect": d, "s": f, "dir": "read", "live": D.format_time(exp.Literal.string(f)).this})
+            except Exception as ex:  # noqa
+                out.append({"kind": "fmttime", "dialect": d, "s": f, "dir": "read", "live_err": str(ex)[:100]})
+        for _, strf in FN.TS_FORMATS + FN.D_FORMATS + [("", "%Y-%m-%d %H:%M:%S"), ("", "%-d/%-m/%y %I:%M %p"), ("", "%j %H")]:
+            try:
+                lv = D.generator().format_time(exp.StrToTime(this=exp.Null(), format=exp.Literal.string(strf)))
+                out.append({"kind": "fmttime", "dialect": d, "s": strf, "dir": "write", "live": (lv or "").strip("'")})
+            except Exception as ex:  # noqa
+                out.append({"kind": "fmttime", "dialect": d, "s": strf, "dir": "write", "live_err": str(ex)[:100]})
+    return out
+
+
+def exercise_time(ctx: Ctx, stats: dict) -> None:
+    """Gen/EngineFns' time roles + Impl/C12Fns' format model + Impl/C12TimeTables against the running helpers and the live sqlglot"""
+    from sqlglot.dialects.dialect import Dialect
+
+    cases: t.List[dict] = [{"kind": "timetables"}] + live_fmttime() + live_timefmt()
+    try:
+        outs = vlib.run_driver("C12", [dict({k: v for k, v in c.items() if not k.startswith("live")}, case=i) for i, c in enumerate(cases)])
+    except Exception as e:  # noqa
+        ctx.broken.append(f"Driver/C12.lean does not run (time formats): {str(e)[:300]}")
+        return
+    stats["time_cases"] = len(cases)
+    tables = outs[0].get("tables", {})
+    for d in ENGINES:
+        D = Dialect.get_or_raise(d)
+        tb = tables.get(d)
+        live = {"format": D.TIME_FORMAT.strip("'"), "mapping": [[k, v] for k, v in D.TIME_MAPPING.items()], "inverse": [[k, v] for k, v in D.INVERSE_TIME_MAPPING.items()]}
+        if tb is None:
+            ctx.broken.append(f"third-party model: Impl/C12TimeTables has no tables for {d}")
+            continue
+        for k in ("format", "mapping", "inverse"):
+            if tb[k] != live[k]:
+                ctx.broken.append(f"third-party model: sqlglot's {d} {'TIME_FORMAT' if k == 'format' else 'TIME_MAPPING' if k == 'mapping' else 'INVERSE_TIME_MAPPING'} is {str(live[k])[:160]}, Impl/C12TimeTables / inverseOf gives {str(tb[k])[:160]}")
+    bad = 0
+    for c, o in zip(cases, outs):
+        msg = None
+        if c["kind"] == "fmttime":
+            if "err" in o or "live_err" in c:
+                msg = f"third-party model: format_time({c['s']!r}) in {c['dialect']}: {o.get('err') or c.get('live_err')}"
+            elif o["out"] != c["live"]:
+                msg = f"third-party model: sqlglot {'reads' if c['dir'] == 'read' else 'writes'} the format {c['s']!r} in {c['dialect']} as {c['live']!r}, Impl/C12Fns.fmtTime gives {o['out']!r}"
+        elif c["kind"] == "timefmt":
+            where = f"on a {c['engine']} session with (input, output, execution) = ({c['input']}, {c['output']}, {c['execution']})"
+            if "live_err" in c:
+                msg = f"correspondence (time formats): the running helpers raised {where}: {c['live_err']}"
+            elif "err" in o:
+                msg = f"driver: {o['err']}"
+            else:
+                for k, lv in c["live"].items():
+                    if o[k] != lv:
+                        msg = f"correspondence (time formats): session.{ {'defaultTimeFormat': 'default_time_format', 'formatTime': 'format_time', 'formatExecutionTime': 'format_execution_time'}[k] }({'' if k == 'defaultTimeFormat' else repr(c['fmt'])}) {where} gives {lv!r}, the model (generated roles) {o[k]!r}"
+                        break
+        if msg:
+            bad += 1
+            if bad <= 3:
+                ctx.broken.append(msg)
+
+
+def _fn_arg(p: dict, param: str) -> t.Optional[dict]:
+    return next((a for a in p["args"] if a["param"] == param), None)
+
+
+def _fn_value(p: dict, row: t.Dict[str, t.Any], param: str) -> t.Any:
+    a = _fn_arg(p, param)
+    if a is None or a["form"] == "none":
+        return None
+    return row.get(a["column"]) if "column" in a else a["value"]
+
+
+def _len_form(p: dict, param: str) -> str:
+    a = _fn_arg(p, param)
+    if a is None or a["form"] == "none":
+        return "omitted"
+    return "pyInt" if a["form"] == "py" else "column"
+
+
+def fn_model_check(ctx: Ctx, progs: t.List[dict], per_prog: t.List[dict], stats: dict) -> None:
+    """implementation <-> model for the functions Impl/C12Fns.lean models (overlay, sequence without a step, regexp_replace):
+    the rows every engine's statement returned (DuckDB: executed; the others: read by the oracle) against the Lean model's value
+    for that engine, computed from the decisions regenerated from the source.  A disagreement breaks the correspondence."""
+    import re
+
+    reqs: t.List[dict] = []
+    meta: t.List[t.Tuple[int, str, t.List[int]]] = []  # (program index, engine, row ids)
+    for i, (p, pp) in enumerate(zip(progs, per_prog)):
+        if p.get("fam") != "fncall" or "ref" not in pp.get("ref", {}):
+            continue
+        data = {r[0]: dict(zip(p["cols"], r[1:])) for r in p["rows"]}
+        ids = sorted(data)
+        by_engine = dict(pp.get("rows", {}))
+        by_engine["duckdb"] = pp["ref"]["ref"]["rows"]
+        fn = p["fn"]
+        for e, rows in by_engine.items():
+            if fn == "overlay":
+                reqs.append({"kind": "overlay", "engine": e, "form": _len_form(p, "len"), "rows": [[_fn_value(p, data[k], "src"), _fn_value(p, data[k], "replace"), _fn_value(p, data[k], "pos"), _fn_value(p, data[k], "len")] for k in ids]})
+            elif fn == "sequence" and _len_form(p, "step") == "omitted" and e in ("duckdb", "bigquery", "spark", "databricks"):
+                ok = [k for k in ids if _fn_value(p, data[k], "start") is not None and _fn_value(p, data[k], "stop") is not None]
+                reqs.append({"kind": "sequence", "engine": e, "rows": [[_fn_value(p, data[k], "start"), _fn_value(p, data[k], "stop")] for k in ok]})
+                meta.append((i, e, ok))
+                continue
+            elif fn == "regexp_replace" and (_fn_value(p, {}, "position") in (None, 1)):
+                pat = _fn_value(p, {}, "pattern")
+                ok = [k for k in ids if _fn_value(p, data[k], "str") is not None]
+                subs = [re.sub(pat, "\x01", _fn_value(p, data[k], "str")) for k in ok]
+                reqs.append({"kind": "regexp", "engine": e, "posGiven": _len_form(p, "position") != "omitted", "subjects": subs})
+                meta.append((i, e, ok))
+                continue
+            else:
+                continue
+            meta.append((i, e, ids))
+    if not reqs:
+        return
+    try:
+        outs = vlib.run_driver("C12", [dict(r, case=j) for j, r in enumerate(reqs)])
+    except Exception as ex:  # noqa
+        ctx.broken.append(f"Driver/C12.lean does not run (function models): {str(ex)[:300]}")
+        return
+    bad = 0
+    for r, o, (i, e, ids) in zip(reqs, outs, meta):
+        p, pp = progs[i], per_prog[i]
+        rows = (dict(pp.get("rows", {}), duckdb=pp["ref"]["ref"]["rows"])).get(e)
+        if rows is None or "err" in o:
+            if "err" in o:
+                ctx.broken.append(f"driver: {o['err']}")
+            continue
+        got = {x[0]: x[1] for x in rows if len(x) == 2}
+        model = o["model"]
+        if r["kind"] == "overlay" and o.get("emulated"):
+            # ASSUMED primitive table `concatSkipsNull` against sqlglot's description of the dialect's CONCAT
+            from sqlglot.dialects.dialect import Dialect
+
+            if bool(Dialect.get_or_raise(e).CONCAT_COALESCE) != bool(o.get("concatSkipsNull")) and f"concat:{e}" not in stats:
+                stats[f"concat:{e}"] = True
+                ctx.broken.append(f"third-party model: sqlglot says CONCAT_COALESCE = {Dialect.get_or_raise(e).CONCAT_COALESCE} for {e}, Impl/C12Fns.concatSkipsNull says {o.get('concatSkipsNull')}")
+        if r["kind"] == "regexp":
+            rep = _fn_value(p, {}, "replacement")
+            pat = _fn_value(p, {}, "pattern")
+            data = {x[0]: dict(zip(p["cols"], x[1:])) for x in p["rows"]}
+            fixed = []
+            for k, m in zip(ids, model):
+                hits = iter(re.findall(pat, _fn_value(p, data[k], "str")))
+                fixed.append("".join(rep if ch == "\x02" else next(hits) if ch == "\x01" else ch for ch in m))
+            model = fixed
+        stats["fn_model_rows"] = stats.get("fn_model_rows", 0) + len(ids)
+        for k, m in zip(ids, model):
+            if k in got and canon_value(m) != got[k]:
+                bad += 1
+                if bad <= 3:
+                    ctx.broken.append(f"correspondence ({r['kind']} model): {show_prog(p)[:260]}: the {e} statement gives {got[k]!r} on row {k}, Impl/C12Fns (regenerated decisions) gives {m!r}")
+                break
+
+
 def exercise(ctx: Ctx) -> t.Tuple[t.List[dict], dict]:
     """returns (configuration failures = concrete failing inputs, statistics); model/translator disagreements go to ctx.broken"""
     stats = {"table_cells": 0, "sanitize_strings": 0, "ident_cases": 0, "name_cases": 0}
@@ -1234,6 +1519,7 @@ def exercise(ctx: Ctx) -> t.Tuple[t.List[dict], dict]:
         if (st in ("LOWERCASE", "UPPERCASE")) != (d in CASE_KEEPING_DIALECTS):
             ctx.broken.append(f"harness: CASE_KEEPING_DIALECTS disagrees with the strategy table on {d} ({st})")
     stats["gen_table"] = {e: [r["input"], r["output"], r["execution"], r["sanitize"], r["trueFlags"]] for e, r in gen_rows.items()}
+    exercise_time(ctx, stats)
     return failures, stats
 
 
@@ -1272,13 +1558,21 @@ def strip(p: dict) -> dict:
 
 
 def shrink(p: dict, known: t.Dict[str, dict], engines: t.List[str]) -> dict:
-    if p["fam"] != "chain":
-        return p
-    best = p
-
     def failing(x: dict) -> bool:
         r = run_one(x, engines)
         return bool(r["fails"]) and classify(x, r["fails"], known) is None
+
+    if p["fam"] == "fncall":
+        best = p
+        for _ in range(6):
+            nxt = next((x for x in FN.shrink_candidates(best) if failing(x)), None)
+            if nxt is None:
+                break
+            best = nxt
+        return best
+    if p["fam"] != "chain":
+        return p
+    best = p
 
     for _ in range(8):
         cands = [dict(best, steps=best["steps"][:i] + best["steps"][i + 1 :]) for i in range(len(best["steps"])) if len(best["steps"]) > 1]
@@ -1306,6 +1600,11 @@ def run(ctx: Ctx) -> None:
 
     load_chain(ctx)
     progs = gen_programs(ctx)
+    # recorded witnesses of open known findings: run like every other program (KNOWN-FINDING is printed only while they still fail)
+    for h, e in known.items():
+        w = (e.get("witness") or {}).get("case")
+        if w:
+            progs.append(dict(w, origin="witness:" + h))
     chunk = 8 if not ctx.thorough else 25
     chunks = [progs[i : i + chunk] for i in range(0, len(progs), chunk)]
     while len(chunks) < 16 and chunk > 1:  # parallel_map only forks for >= 16 items
@@ -1317,6 +1616,8 @@ def run(ctx: Ctx) -> None:
     own_nf = sum(x["own_nf"] for x in per_prog)
 
     config_failures, stats = exercise(ctx)
+    if driver_usable(ctx):
+        fn_model_check(ctx, progs, per_prog, stats)
 
     spark_live = "not run (thorough tier only)"
     if ctx.thorough:
@@ -1341,20 +1642,14 @@ def run(ctx: Ctx) -> None:
             for h in hs:
                 vlib.report_known(ctx, known[h], known[h]["summary"])
 
-    # recorded witnesses of open known findings
-    for h, e in known.items():
-        w = (e.get("witness") or {}).get("case")
-        if w:
-            r = run_one(w)
-            if r["fails"] and classify(w, r["fails"], known) is not None:
-                vlib.report_known(ctx, e, e["summary"])
+    # (the recorded witnesses of the open known findings ran with the programs: origin "witness:<id>")
 
     reported = 0
     for v in config_failures[:3]:
         vlib.report_violation(ctx, dict(v, kind="an engine's session class does not have the documented configuration", broken=ctx.broken))
         reported += 1
     for v in viol[:3]:
-        if v["family"] == "chain":
+        if v["family"] in ("chain", "fncall"):
             best = shrink(v["case"], known, engines_in(v["failures"]))
             r = run_one(best)
             if r["fails"]:
@@ -1384,7 +1679,12 @@ def run(ctx: Ctx) -> None:
             "each over small tables with NULLs and duplicates; every program is rendered (a) by df.sql(dialect=E) on a DuckDB session for the 7 engines, (b) by the real engine session class's collect() through a "
             "recording fake connection for the 6 non-DuckDB engines, (c) by df.sql(dialect='duckdb') on each engine session; each text is parsed in its dialect, re-rendered (fixed point), written for DuckDB by sqlglot, "
             "executed, and compared with the DuckDB session's collect() (rows as bags, or in order after a total orderBy; column order; names up to case and sanitising). "
-            "non-trivial = distinct programs whose result is non-empty. evaluations = renderings interpreted + statements captured + generated-definition comparisons.",
+            "non-trivial = distinct programs whose result is non-empty. evaluations = renderings interpreted + statements captured + generated-definition comparisons. "
+            "FUNCTION STREAM (family fncall; tools/props/c12_fns.py): df.select('id', F.<fn>(args)) for the functions of c12_fns.RECIPES; the functions whose body in the tree under test mentions an `_is_<engine>` flag or a session "
+            "time-format helper are enumerated on every run, the others sampled (quick) / enumerated (thorough); argument forms are read from the running function's signature (ColumnOrName: name, Column; Union[ColumnOrName, int]: + Python int, lit(); "
+            "Optional: + omitted; str / int: Python literal) and varied one parameter at a time around two base calls (every optional parameter given / omitted); data: 2-4 typed rows from per-role pools with NULLs (never in the first row) and boundary rows "
+            "(documented examples, ascending / descending / one-element ranges, subjects with several matches, Saturday-Sunday-Monday); each case runs the DuckDB session (reference, plus its text in its own dialect) and the statement of every engine session that "
+            "supports the function, read under the assumed engine primitives of c12_fns.apply_prims.",
             "programs": len(progs) - skipped,
             "disagreements_checked": disagreements,
             "validation_not_proof": True,
@@ -1405,6 +1705,9 @@ def run(ctx: Ctx) -> None:
         "tools/gen_c12.py (Python ast -> Gen/Engines.lean); every generated definition is compared with the running session classes on each run",
         "ASSUMED engine primitives (Impl/C12Round.lean `primRound` / `primRoundScaleExists`): Postgres round(double precision) = ties to even, round(numeric) = ties away from zero, no round(double precision, integer); every other engine's ROUND = ties away from zero — C12_round_ties is relative to this table",
         "NOT part of the proof, oracle of the validation stream only: sqlglot 26.14 parsers/generators for the seven dialects and DuckDB 1.2.2 (thorough tier: PySpark 3.5.9 for the Spark session)",
+        "tools/gen_c12_fns.py (Python ast, symbolic execution of the dispatching function bodies -> Gen/EngineFns.lean); exercised: the time roles against the running helpers on sessions with three different dialects, the overlay / sequence / regexp_replace decisions through the model-vs-statement comparison of every function case",
+        "ASSUMED engine primitives of the function part (Impl/C12Fns.lean; oracle side c12_fns.apply_prims): SUBSTRING positions, native OVERLAY = SUBSTRING(s,1,p-1) || r || SUBSTRING(s FROM p+l) (NULL-strict), DuckDB's CONCAT skips NULL operands (compared with sqlglot's CONCAT_COALESCE), GENERATE_SERIES / GENERATE_ARRAY with a unit step inclusive and empty when the step points away, Spark's SEQUENCE default step, REGEXP_REPLACE first-match-only without 'g' on DuckDB / Postgres and all-match elsewhere, TRY_TO_TIMESTAMP-like functions parse with the format read in the ENGINE's own language and give NULL on failure",
+        "sqlglot's format languages: Impl/C12TimeTables.lean (TIME_FORMAT, TIME_MAPPING of the seven dialects, hand-copied, compared with the live classes on each run) and the model of sqlglot.time.format_time as greedy longest-match rewriting (compared with the live function on the formats the stream uses, both directions)",
     ]
     ctx.assumptions += [
         "the SQL text for each dialect is written by sqlglot's generators (third party); its cross-engine equivalence is validated per program by execution, not proved",
@@ -1415,6 +1718,9 @@ def run(ctx: Ctx) -> None:
         "engine sessions are the real session classes on stub driver modules and a recording fake DB-API connection (Spark: a fake PySpark session object; in the thorough tier additionally a live PySpark JVM for the first 250 programs); driver-specific behaviour (type conversion, cursors) is not exercised",
         "an engine reports an output column under the alias written in the statement (exactly when quoted; folded by its own strategy when not) — `engineReports` in Impl/C12Names.lean",
         "sqlglot's four NORMALIZATION strategies are modelled on ASCII letters and compared with the live normalize_identifiers on a fixed pool of names",
+        "function stream: df.sql(dialect=X) of a function call is read only for X = the session's own dialect (other X: open finding H_sqlDialectKeepsSessionFunctions); (function, engine) pairs the oracle cannot read are listed in c12_fns.SKIP with the reason and are not compared; engine-specific functions without a recipe are listed in evidence (function_stream.engine_specific_functions_without_recipe)",
+        "function stream: float results are compared to 9 significant digits; timestamps as UTC wall-clock text (every DuckDB connection of the stream runs with TimeZone = UTC)",
+        "function stream: regular-expression subjects are cut into matches with Python's `re` for the Lean model (the patterns used are literal characters and simple classes on which RE2 / PCRE / Java agree)",
     ]
 
 
